@@ -35,6 +35,9 @@ def fc(a: Parser, b: HTMLParser) -> int:
 '''
 
 
+SHAPES: dict = {}      # scenario directory -> the scenario's signature as computed by the specification
+
+
 def run_obs(r, srcname: str, aliases_by_sid: dict) -> dict:
     out = str(r.out)
     writes = []
@@ -52,7 +55,7 @@ def run_obs(r, srcname: str, aliases_by_sid: dict) -> dict:
         sid = next((s for s in rel if re.fullmatch(r"s\d{4}", s)), "")
         kind = "api" if isapi else ("stub" if sid or not isstub else "foreign")
         writes.append({"path": p, "mode": w["mode"], "digest": sha(w["text"]), "rel": rel, "isstub": isstub, "isapi": isapi, "parsed": parsed,
-                       "pymodule": pymod or ["@none"], "base": Path(p).stem, "tops": tops, "aliases": aliases_by_sid.get(sid, []), "kind": kind})
+                       "pymodule": pymod or ["@none"], "base": Path(p).stem, "tops": tops, "aliases": aliases_by_sid.get(sid, []), "kind": kind, "shape": SHAPES.get(sid, "")})
     return {"out": out, "srcname": srcname, "writes": writes}
 
 
@@ -91,6 +94,7 @@ def main(v: Verdict) -> None:
     scs2 = generate(v, "Package2", "Topo2_MC.cfg", min_records=50)
     for k, sc in enumerate(scs2):
         sc["id"] = 5000 + k
+        SHAPES[f"s{sc['id']:04d}"] = sc.get("shape", "")
         if sc.get("variant") in ("samemodule", "pkgmodreexp"):       # a module re-exported as a whole keeps its own name as file name
             aliases[f"s{sc['id']:04d}"] = [topo.u2_names(sc)["m1"] if sc["variant"] == "samemodule" else "deep"]
     for c in range(0, len(scs2), 30):
